@@ -34,4 +34,7 @@ class AbsmaxOptimizer(SymmetricOptimizer):
             dim = list(range(1, base.ndim)) if (axis == 0) else list(range(0, base.ndim - 1))
             rmax = torch.amax(torch.abs(base), dim=dim, keepdim=True)
         qmax = 2 ** (bits - 1) - 1
-        return rmax / qmax
+        # A null scale would produce NaN (0 / 0) when quantizing a null tensor, row or column:
+        # use at least the smallest positive (subnormal) value of the dtype
+        info = torch.finfo(base.dtype)
+        return torch.clamp(rmax / qmax, min=info.tiny * info.eps)
